@@ -547,6 +547,9 @@ func (d *Driver) clientFinished(c *ClientState) bool {
 	if c.SelfClosed {
 		return true
 	}
+	if c.Plan.Hostile && c.sent == len(c.stream) {
+		return true
+	}
 	return c.sent == len(c.stream) && len(c.Replies) >= len(c.Plan.Reqs) && c.Sock.OutLen() == 0
 }
 
@@ -878,7 +881,7 @@ func (d *Driver) observe() {
 		if c.Sock != nil {
 			out += c.Sock.OutLen()
 		}
-		if len(c.Replies) > c.reqsSent() && !c.Malformed {
+		if len(c.Replies) > c.reqsSent() && !c.Malformed && !c.Plan.Hostile {
 			// more replies than requests fully sent
 			if d.Counters["viol_more_replies"] == 0 {
 				d.count("viol_more_replies")
